@@ -301,7 +301,36 @@ var (
 
 // doubled reports whether the multigraph variant carries a second parallel
 // line for the pair (i,j).
-func doubled(i, j int) bool { return (i+2*j)%3 == 0 }
+func doubled(i, j, idKind int) bool { return (i+2*j+idKind)%3 == 0 }
+
+// combo is one realisation of an abstract graph: an ID map and a graph
+// implementation.
+type combo struct{ idk, v int }
+
+// allCombos is every ID map with every implementation.
+var allCombos = func() []combo {
+	var cs []combo
+	for idk := 0; idk < nIDMaps; idk++ {
+		for v := 0; v < nVariants; v++ {
+			cs = append(cs, combo{idk, v})
+		}
+	}
+	return cs
+}()
+
+// oneMapCombos is the thinned plan of the large quick-tier sweeps: one ID
+// map, chosen by the edge mask, under all four implementations.
+func oneMapCombos(mask uint32) []combo {
+	idk := int(mask % nIDMaps)
+	return []combo{{idk, vOrdAsc}, {idk, vOrdDesc}, {idk, vSimple}, {idk, vMulti}}
+}
+
+// twoCombos is the thinnest plan: one ID map chosen by the mask, the
+// ascending harness graph and one of the other three implementations.
+func twoCombos(mask uint32) []combo {
+	idk := int(mask % nIDMaps)
+	return []combo{{idk, vOrdAsc}, {idk, 1 + int(mask/nIDMaps%3)}}
+}
 
 // build constructs the concrete graph for s.
 func build(s *gspec, idKind, variant int) *built {
@@ -362,7 +391,7 @@ func build(s *gspec, idKind, variant int) *built {
 				for j := 0; j < s.n; j++ {
 					if s.has(i, j) {
 						g.SetLine(g.NewLine(multi.Node(ids[i]), multi.Node(ids[j])))
-						if doubled(i, j) {
+						if doubled(i, j, idKind) {
 							g.SetLine(g.NewLine(multi.Node(ids[i]), multi.Node(ids[j])))
 						}
 					}
@@ -378,7 +407,7 @@ func build(s *gspec, idKind, variant int) *built {
 				for j := i + 1; j < s.n; j++ {
 					if s.has(i, j) {
 						g.SetLine(g.NewLine(multi.Node(ids[i]), multi.Node(ids[j])))
-						if doubled(i, j) {
+						if doubled(i, j, idKind) {
 							g.SetLine(g.NewLine(multi.Node(ids[j]), multi.Node(ids[i])))
 						}
 					}
